@@ -473,6 +473,83 @@ def judge(chk, sc, res):
             chk.samples.append({"events": sc["events"], "final": sc["final"], "observed": res["obs"]})
 
 
+def import_edit_case(job):
+    """imports are not part of the model; implementation-side oracle only. A project with a local import (reached through the symlink
+    build/imports/<name> or directly), which itself includes a second file: cold run, identical re-run (must be served from the cache),
+    then an edit of the imported lazefile or of the file it includes (content and mtime), then the same command line again: it must not
+    be served from the cache and must leave the ninja file a cold run on the edited tree writes."""
+    seed, i = job
+    rng = random.Random(seed * 7331 + i)
+    symlink = rng.random() < 0.7
+    which = rng.choice(["lib", "included"])
+    lib = rng.choice(["laze-lib.yml", "laze.yml"])
+    named = {"name": "extlib"} if rng.random() < 0.4 else {}
+
+    def project(level):
+        return {"files": {
+            "laze-project.yml": [{"contexts": [{"name": "default", "env": {"bindir": "${build-dir}/out/${builder}/${app}"},
+                                                "rules": [{"name": "CC", "in": "c", "out": "o", "cmd": "cc ${CFLAGS} -c ${in} -o ${out}"},
+                                                          {"name": "LINK", "in": "o", "cmd": "ld ${in} -o ${out}"}]}],
+                                  "builders": [{"name": "b0"}, {"name": "b1"}],
+                                  "imports": [dict({"path": "vendor/ext", "symlink": symlink}, **named)],
+                                  "apps": [{"name": "a0", "sources": ["a0.c"], "depends": ["extmod"]}]}],
+            f"vendor/ext/{lib}": [{"includes": ["flags.yml"],
+                                   "modules": [{"name": "extmod", "sources": ["ext.c"], "depends": ["extflags"],
+                                                "env": {"export": {"CFLAGS": [f"-DLIB_LEVEL={level if which == 'lib' else 0}"]}}}]}],
+            "vendor/ext/flags.yml": [{"modules": [{"name": "extflags",
+                                                   "env": {"export": {"CFLAGS": [f"-DFLAGS_LEVEL={level if which == 'included' else 0}"]}}}]}]},
+            "args": {}}
+    p0, p1 = project(1), project(2)
+    s = clirun.Scenario(p0)
+    out = {"symlink": symlink, "edited": which, "steps": []}
+    try:
+        inv = {"args": {}, "flags": {"generate_only": True}}
+        for step in ("cold", "again"):
+            r = s.invoke(inv)
+            out["steps"].append((step, r["rc"], r["cache_hit"]))
+        f = f"vendor/ext/{lib}" if which == "lib" else "vendor/ext/flags.yml"
+        projrun.write_project(s.d, {f: p1["files"][f]})
+        st = os.stat(os.path.join(s.d, f))
+        os.utime(os.path.join(s.d, f), ns=(st.st_atime_ns, st.st_mtime_ns + 4_000_000_000))
+        r = s.invoke(inv)
+        out["steps"].append(("after-edit", r["rc"], r["cache_hit"]))
+        out["ninja_after_edit"] = r["ninja"]
+        out["stderr"] = r["stderr"][-300:]
+    finally:
+        s.close()
+    s2 = clirun.Scenario(p1)
+    try:
+        r = s2.invoke({"args": {}, "flags": {"generate_only": True}})
+        out["ninja_cold_edited"] = r["ninja"]
+        out["cold_rc"] = r["rc"]
+    finally:
+        s2.close()
+    return (job, out)
+
+
+def import_worker(jobs):
+    return [import_edit_case(j) for j in jobs]
+
+
+def judge_import(chk, job, out):
+    chk.evaluations += 1
+    chk.count("import-edit:" + ("symlink" if out["symlink"] else "plain") + ":" + out["edited"])
+    steps = {n: (rc, hit) for n, rc, hit in out["steps"]}
+    case = {"import_case": list(job), "symlink": out["symlink"], "edited": out["edited"], "steps": out["steps"]}
+    if steps.get("cold", (1, False))[0] != 0 or out.get("cold_rc") != 0:
+        chk.fail_oracle("cache:import-project-rejected", f"the import project is not accepted: {out.get('stderr')}", case)
+        return
+    if not steps["again"][1]:
+        chk.fail_oracle("cache:import-unchanged-not-served", "an unchanged project with a local import is not served from the cache on an identical re-run", case)
+    if steps["after-edit"][1]:
+        chk.fail_oracle("cache:hit-after-edit:imported-file", f"a lazefile reached through a local import ({'symlinked' if out['symlink'] else 'plain'}; the "
+                        f"{'imported file itself' if out['edited'] == 'lib' else 'file it includes'}) was edited, yet the next run is served from the cache", case)
+    elif out.get("ninja_after_edit") != out.get("ninja_cold_edited"):
+        chk.fail_oracle("cache:stale-ninja-after-edit:imported-file", "after an edit of an imported lazefile the regenerated ninja file differs from a cold run on the edited tree", case)
+    else:
+        chk.nontrivial.add(f"import-{job[1]}")
+
+
 def run(chk):
     n, maxlen = (120, 5) if chk.tier == "quick" else (1500, 8)
     chk.rule = ("histories over {run(args), run killed at one of 10 fault points, failing run (unknown builder/app), edit / touch of a loaded "
@@ -485,6 +562,8 @@ def run(chk):
         [gen_nearmiss(chk.seed, i) for i in range(40 if chk.tier == "quick" else 800)]
     for sc, res in common.parallel_map(worker, scs):
         judge(chk, sc, res)
+    for job, out in common.parallel_map(import_worker, [(chk.seed, i) for i in range(10 if chk.tier == "quick" else 200)]):
+        judge_import(chk, job, out)
     chk.assumptions = ["stamps are (len, mtime): every edit of the harness changes mtime", "kill = _exit at a hook point (unflushed buffers lost); power loss / fsync ordering not modelled",
                        "concurrent laze processes are not modelled; concurrent edits are (pause hook)"]
     return chk.finish()
